@@ -142,17 +142,18 @@ macro_rules! digit_model {
                     w
                 }
             };
-            let mut arr = [b'0'; DIG];
-            let mut p = 0;
-            while p < DIG {
-                let v = ((*x >> (p * $lg)) & ((1 << $lg) - 1)) as u8;
-                arr[DIG - 1 - p] = if v < 10 { b'0' + v } else if $up { b'A' + (v - 10) } else { b'a' + (v - 10) };
-                p += 1;
-            }
             let bl = <$D>::BITS as usize - x.leading_zeros() as usize;
             let mut n = (bl + $lg - 1) / $lg;
             if n == 0 { n = 1; }
             if w > n { n = w; }
+            // only the n characters that are printed are computed: the trip count is bounded by the value, not by the width of the type
+            let mut arr = [b'0'; DIG];
+            let mut p = 0;
+            while p < n {
+                let v = ((*x >> (p * $lg)) & ((1 << $lg) - 1)) as u8;
+                arr[DIG - 1 - p] = if v < 10 { b'0' + v } else if $up { b'A' + (v - 10) } else { b'a' + (v - 10) };
+                p += 1;
+            }
             f.write_str(unsafe { core::str::from_utf8_unchecked(&arr[DIG - n..]) })
         }
     };
@@ -449,7 +450,7 @@ macro_rules! c12_dec {
             #[cfg(kani)]
             {
                 let mut sink = $crate::c12::Null { count: 0 };
-                let r = if $kind < 2 { $crate::c12_call!($TR, $T, x, sink) } else { $crate::c12_call!($TR, $T, x, sink, 4) };
+                let r = $crate::c12_call!($TR, $T, x, sink, if $kind < 2 { 16 } else { 4 });
                 assert!(r.nonneg == !neg, "sign flag = value is not negative");
                 assert!(r.prefix_len == 0, "decimal forms have no prefix");
                 assert!(r.len == wl, "numeral length");
